@@ -8,6 +8,8 @@ import (
 	"fmt"
 	"io"
 	"os"
+	"sync/atomic"
+	"time"
 	"unicode/utf8"
 
 	"github.com/jf-tech/omniparser"
@@ -318,6 +320,21 @@ func main() {
 	cw := vh.NewCaseWriter(o, "C01", "Base.ErrClass Model.Latch", "c01case", "check_case")
 	fixtures := append(vh.Fixtures(), vh.ExtraFixtures()...)
 	total := o.Count(1500, 40000)
+	// a call into the library that never returns is a violation too ("every Read call returns"):
+	// leave the case marker of vh.Current in place and stop, bin/check reports that case
+	var progress int64
+	go func() {
+		last, since := int64(-1), time.Now()
+		for {
+			time.Sleep(time.Second)
+			if p := atomic.LoadInt64(&progress); p != last {
+				last, since = p, time.Now()
+			} else if time.Since(since) > 40*time.Second {
+				fmt.Println("watchdog: a call into the library did not return within 40 s (hang); the case being run is in current.json")
+				os.Exit(3)
+			}
+		}
+	}()
 
 	schemas := make([]*vh.LoggedSchema, len(fixtures))
 	for i, f := range fixtures {
@@ -338,6 +355,7 @@ func main() {
 		return
 	}
 	for c := 0; c < total; c++ {
+		atomic.AddInt64(&progress, 1)
 		ei := vh.NewErrIntern()
 		if r.Chance(0.3) {
 			// ---- caller-supplied handler with a scripted ingester ----
